@@ -309,3 +309,9 @@ def pka_raises(ctx, st, exc):
 
 UNITS.append(Unit("C03", "jsonargparse._core:ArgumentParser.parse_known_args", pka_setup, pka_post, pka_raises, max_paths=5000, expect_cover=("return", "raise:NotImplementedError", "raise:ArgumentError"),
                   trusted=["argparse's _parse_known_args; inspect.stack()[1] is the caller's frame", "patch_namespace / parser_context: their own units"]))
+
+# the arms of adapt_typehints reject with ValueError only (what _check_type converts, and the parse methods report as ArgumentError):
+# a loader, import or arithmetic exception that leaves an arm as itself escapes every parse method
+from contracts.adapt_arms import arms_units as _arms_units  # noqa: E402
+from contracts.share import only_clauses  # noqa: E402
+UNITS += [only_clauses(u, "C03") for u in _arms_units("C02")]
